@@ -126,10 +126,11 @@ def run_jobs(jobs, nproc=None, seed=0):
     """Run jobs in a pool of long-lived spawn-ed workers (hash seed from ``seed``)."""
     nproc = nproc or int(os.environ.get("VERIF_PROCS", "16"))
     nproc = max(1, min(nproc, len(jobs)))
-    # rotate scheduling order by seed (coverage unaffected)
+    # rotate scheduling order by seed (coverage unaffected), then start the expected long poles first
     if jobs and seed:
         k = seed % len(jobs)
         jobs = jobs[k:] + jobs[:k]
+    jobs = sorted(jobs, key=lambda j: -j.get("weight", 0))
     os.environ["PYTHONHASHSEED"] = str(seed % 4294967295)
     ctx = mp.get_context("spawn")
     results = []
